@@ -12,6 +12,7 @@ validation of recorded traces.
 import argparse
 import json
 import os
+import re
 import sys
 import traceback
 
@@ -1230,7 +1231,12 @@ def life_scripts(tier, rng):
     # random controller scripts
     n = 40 if tier == "quick" else 1500
     for _ in range(n):
-        calls, running = [], None            # running: mode of the search that may still be running
+        # maybe: the modes of the searches that MAY be running now. A start issued while an earlier depth / time search
+        # may or may not have ended is accepted or rejected depending on timing, so either search may be the one running;
+        # 'wait' is a legal script step only when every candidate ends by itself (waiting for an infinite or an unhit
+        # ponder search blocks by design - seed 3 produced 'depth, ponder, wait', reported as a hang: a false alarm of
+        # the generator, which used to remember only the first start)
+        calls, maybe = [], set()
         for _ in range(rng.randint(3, 7)):
             r = rng.random()
             if r < 0.45:
@@ -1238,23 +1244,23 @@ def life_scripts(tier, rng):
                 fen = rng.choice([S, S, KIWI_FEN, MATED_FEN])
                 calls.append(st(mode, fen=fen, depth=rng.choice([0, 1, 2, 3]) if mode != "depth" else rng.choice([1, 2, 3]),
                                 ms=rng.choice([30, 60]) if mode == "time" else 300))
-                if running is None:
-                    running = mode
+                if not (len(maybe) == 1 and maybe <= {"inf", "ponder"}):   # certainly rejected only then
+                    maybe.add(mode)
             elif r < 0.65:
                 calls.append(stop)
-                running = None
-            elif r < 0.72 and running in ("depth", "time"):
+                maybe = set()
+            elif r < 0.72 and maybe and maybe <= {"depth", "time"}:
                 calls.append(wait)
-                running = None
+                maybe = set()
             elif r < 0.80:
                 calls.append(iss)
             elif r < 0.86:
                 calls.append(hit)
-                if running == "ponder":
-                    running = "time"
+                if "ponder" in maybe:
+                    maybe = (maybe - {"ponder"}) | {"time"}
             elif r < 0.90:
                 calls.append(ng)
-                running = None
+                maybe = set()
             elif r < 0.94:
                 calls.append(rng.choice([{"op": "isready"}, {"op": "clearhash"}, {"op": "resize"}]))
             else:
@@ -2137,6 +2143,11 @@ MALFORMED = [
     "position fen 8/8/8/8/8/8/8/8 w - - 0 1", "position fen rnbqkbnr/pppppppp/8/8/8/8/PPPPPPPP/RNBQKBNR w KQkq e9 0 1",
     "position fen rnbqkbnr/pppppppp/44/8/8/8/PPPPPPPP/RNBQKBN w KQkq - 0 1", "position fen k7/8/8/8/8/8/8/K7 w - - x 1",
     "position fen  moves e2e4",
+    # FEN text that is well formed for a position that is not (FenWellFormed.tla): the side that moved is in check, en-passant
+    # squares that no double step produced, castling rights without the rook, a pawn on the last rank, touching kings
+    "position fen 4k3/8/8/8/8/8/4R3/4K3 w - - 0 1", "position fen 4k3/8/8/8/8/8/3PK3/8 w - e3 0 1", "position fen kK6/8/8/8/8/8/8/8 w - - 0 1",
+    "position fen 4k3/8/8/4P3/8/8/8/4K3 w - d6 0 1", "position fen 4k3/8/8/8/8/8/8/4K3 w KQkq - 0 1", "position fen P3k3/8/8/8/8/8/8/4K2p w - - 0 1",
+    "position fen rnbqkbnr/pppppppp/8/8/8/8/PPPPPPPP/RNBQKBNR w KQkq e3 0 1 moves e2e4",
     "go depth", "go depth x", "go nodes", "go nodes -", "go movetime", "go movetime abc", "go wtime", "go movestogo", "go mate",
     "go foo", "go depth 2 foo", "go\tdepth", "go winc", "go binc x", "go btime",
     "setoption", "setoption name", "setoption name Foo value 1", "setoption value 3",
@@ -2159,14 +2170,75 @@ def check_C16(tier):
     cfg = "INIT Init\nNEXT Next\nCONSTANTS\n  MaxTok = %d\nINVARIANT Out\nCHECK_DEADLOCK FALSE\n" % (4 if quick else 6)
     fa = vlib.tlc("FenInput", cfg, workers=8, tag="fen-gen", timeout=3600)
     ck.add_tlc(fa)
+    # ---- "an error or a WELL-FORMED position": FenWellFormed.tla damages legal positions by edits that keep the FEN text
+    # perfectly well formed (side to move flipped, en-passant square set, castling right added, piece removed / put, king moved);
+    # every string the engine ACCEPTS - of this and the other families - is judged by the specification's WellFormed on the
+    # position the engine then holds (its own FEN output), and must be usable (make / take back every move to depth 2)
+    root_fens = [l.split("#")[0].strip() for l in open(os.path.join(VERIF, "corpus", "roots.fen")) if l.split("#")[0].strip()]
+    wcfg = ('INIT Init\nNEXT Next\nCONSTANTS\n Mode = "gen"\n RootsFile = "roots.ndjson"\n JudgeFile = ""\n MaxDamage = %d\n Thin = %d\n'
+            'INVARIANTS Obs RootsWellFormed\nCHECK_DEADLOCK FALSE\n')
+    gens = [vlib.tlc("FenWellFormed", wcfg % (1, 4 if quick else 1), files={"roots.ndjson": roots_ndjson(root_fens)}, workers=8, tag="fenwf-gen", timeout=3600)]
+    if not quick:   # two edits (thinned): an ill-formed field next to another one, or repaired by the second edit
+        gens.append(vlib.tlc("FenWellFormed", wcfg % (2, 16), files={"roots.ndjson": roots_ndjson(root_fens[::4])}, workers=16, tag="fenwf-gen2", timeout=7200))
     run = vlib.scratch("fen")
     try:
+        dam, why_in = set(), {}
+        for g in gens:
+            ck.add_tlc(g)
+            for l in vlib.tlc_lines(g, '<<"FENPOS"'):
+                d = json.loads(json.loads(l.rstrip("\r\n")[len('<<"FENPOS", '):-2]))
+                d["cr"] = [c for c, on in zip("KQkq", d["cr"]) if on]
+                f = fenspec.state_to_fen(d)
+                dam.add(f)
+                why_in[f] = d["why"]
+        with open(os.path.join(run, "damaged.txt"), "w") as fh:
+            for f in sorted(dam):
+                fh.write("%s\t%s\n" % (f, why_in[f]))
+        cnt["C16.damaged_positions"] = len(dam)
         res = vlib.run_driver(["fen-fuzz", "-gen", vlib.art_out(fa), "-corpus", os.path.join(VERIF, "corpus", "roots.fen"),
-                               "-mut", 5000 if quick else 500000, "-seed", SEED, "-out", os.path.join(run, "res.json")], cwd=run, timeout=3600)
+                               "-mut", 5000 if quick else 500000, "-seed", SEED, "-damaged", os.path.join(run, "damaged.txt"),
+                               "-accepted", os.path.join(run, "accepted.ndjson"), "-out", os.path.join(run, "res.json")], cwd=run, timeout=3600)
+        acc = [json.loads(l) for l in open(os.path.join(run, "accepted.ndjson"))] if os.path.exists(os.path.join(run, "accepted.ndjson")) else []
     finally:
         shutil.rmtree(run, ignore_errors=True)
     ck.add_result(res)
     cnt.update(res["counters"])
+    # the judge: WellFormed of ChessRules on what the engine holds for every accepted string
+    def viol16(kind, sig, fen, detail, replay):
+        ck.discs.append({"prop": "C16", "kind": kind, "sig": sig, "fen": fen, "detail": json.dumps(detail), "replay": replay})
+        key = "C16|%s|%s" % (kind, sig)
+        ck.disc_count[key] = ck.disc_count.get(key, 0) + 1
+    states = []
+    for a in acc:
+        try:
+            states.append(fenspec.fen_to_state(a["out"]))
+        except Exception as e:       # the engine's own output is not even a FEN
+            viol16("accepted-fen-ill-formed", "fen/ill-formed/output-unreadable", a["in"], {"output": a["out"], "family": a["family"]}, {"fen": a["in"]})
+            states.append(None)
+    jcfg = 'INIT JInit\nNEXT JNext\nCONSTANTS\n Mode = "judge"\n RootsFile = ""\n JudgeFile = "judge.ndjson"\n MaxDamage = 0\n Thin = 1\nINVARIANT Judge\nCHECK_DEADLOCK FALSE\n'
+    CH = 4000
+    idx = [i for i, st in enumerate(states) if st is not None]
+    judged = 0
+    for c0 in range(0, len(idx), CH):
+        part = idx[c0:c0 + CH]
+        ja = vlib.tlc("FenWellFormed", jcfg, files={"judge.ndjson": "".join(json.dumps(states[i], separators=(",", ":")) + "\n" for i in part)},
+                      workers=1, tag="fenwf-judge", timeout=3600, cache=False)
+        ck.add_tlc(ja)
+        got = {}
+        for l in vlib.tlc_lines(ja, '<<"WF"'):
+            m = re.match(r'<<"WF", (\d+), "([^"]*)">>', l)
+            if m:
+                got[int(m.group(1))] = m.group(2)
+        shutil.rmtree(ja, ignore_errors=True)
+        if len(got) != len(part):
+            raise Inconclusive("FenWellFormed judged %d of %d accepted positions" % (len(got), len(part)))
+        for k, i in enumerate(part, 1):
+            judged += 1
+            if got[k]:
+                a = acc[i]
+                viol16("accepted-fen-ill-formed", "fen/ill-formed/" + got[k], a["in"],
+                       {"holds": a["out"], "ill_formed_because": got[k], "family": a["family"]}, {"fen": a["in"], "family": a["family"]})
+    cnt["C16.accepted_positions_judged"] = judged
     # legal positions round-trip exactly: every node of the TLC trees
     tree = shared(tier)["tree"]
     ck.add_tlc(tree)
